@@ -130,7 +130,8 @@ def attr_values(at):
     vals = list(cands)
     if f and f['enum']:
         vals = list(f['enum'][:2]) + vals
-    return vals
+    # falsy values first where the type accepts them (0, 0.0, ''): a stored falsy value is still a value
+    return [0, 0.0, ''] + vals
 
 
 def work_attrs(names):
@@ -150,7 +151,7 @@ def work_attrs(names):
         chosen = (req + opt)[:4]
         steps = []
         for an, at in chosen:
-            vs = [v for v in attr_values(at) if call(lambda: cls(val, xsd_check=False, **{an.replace('-', '_'): v})).ok][:2]
+            vs = [v for v in attr_values(at) if call(lambda: cls(val, xsd_check=False, **{an.replace('-', '_'): v})).ok][:3]
             for v in vs:
                 steps.append((an, v))
             steps.append((an, None))
